@@ -1203,6 +1203,12 @@ func interleave(rng *rand.Rand, a, b *Txn) {
 func genCase(rng *rand.Rand) Case {
 	c := Case{Mode: "gen", Workers: 1 + rng.Intn(4), Routing: []string{"round-robin", "partition"}[rng.Intn(2)],
 		Method: []string{"none", "tablename", "transaction", "transaction-bucket"}[rng.Intn(4)], Buckets: 1 + rng.Intn(4), S0: uint64(1000 + rng.Intn(500))}
+	switch rng.Intn(6) {
+	case 0: // the stream crosses the 4 GiB boundary of WAL positions (X/Y notation: 0/FFFFFFxx -> 1/xx)
+		c.S0 = 1<<32 - uint64(20+rng.Intn(120))
+	case 1: // high positions
+		c.S0 = uint64(0x2A)<<32 + uint64(rng.Intn(1<<20))
+	}
 	if rng.Intn(4) == 0 {
 		c.Whitelist = []string{"public.a", "public.b"}
 	}
